@@ -863,6 +863,16 @@ func (x *c01) ruleR3() {
 			var cv []c01Conv
 			for _, st := range h.clause.Body {
 				x.scan(info, st, &ar, &cv)
+				// … and the helpers of the package the kind is handed to (a kind switch extracted
+				// into a function is still this handler's arithmetic)
+				ast.Inspect(st, func(n ast.Node) bool {
+					if c, ok := n.(*ast.CallExpr); ok {
+						if decl, hinfo := x.kindHelper(c); decl != nil {
+							x.scan(hinfo, decl.Body, &ar, &cv)
+						}
+					}
+					return true
+				})
 			}
 			toks := map[token.Token]bool{}
 			hasFloat := false
@@ -911,14 +921,43 @@ func (x *c01) ruleR3() {
 	x.r.Require(R, 100)
 }
 
+// kindHelper resolves a call, made by a handler, of a function of package runtime that receives the kind
+// (a parameter of type reflect.Kind): its body is walked in place of the call.
+func (x *c01) kindHelper(c *ast.CallExpr) (*ast.FuncDecl, *types.Info) {
+	info := x.run.Pkg.TypesInfo
+	f := callee(info, c)
+	if f == nil || f.Pkg() != x.run.Obj.Pkg() || f == x.run.Obj {
+		return nil, nil
+	}
+	sig := f.Type().(*types.Signature)
+	takesKind := false
+	for i := 0; i < sig.Params().Len(); i++ {
+		if types.Identical(sig.Params().At(i).Type(), x.kindT) {
+			takesKind = true
+		}
+	}
+	if !takesKind {
+		return nil, nil
+	}
+	for _, fi := range x.r.P.Funcs(x.rt) {
+		if fi.Obj == f && !x.r.P.isTestFile(fi.File) {
+			return fi.Decl, fi.Pkg.TypesInfo
+		}
+	}
+	return nil, nil
+}
+
+// infoOf returns the type information covering node n (all functions of package runtime share one).
+func (x *c01) infoOf(n ast.Node) *types.Info { return x.run.Pkg.TypesInfo }
+
 // walkKind walks handler h with the kind selector fixed to k.
 func (x *c01) walkKind(h *c01Handler, k int64) (ar []c01Arith, arSel []bool, cvSel []c01Conv, selStmts int, unknown []string) {
 	info := x.run.Pkg.TypesInfo
-	s := &c01Sel{info: info, selType: x.kindT, val: k}
+	s := &c01Sel{info: info, selType: x.kindT, val: k, helper: x.kindHelper}
 	s.leaf = func(n ast.Node, sel, exp bool) {
 		var a []c01Arith
 		var c []c01Conv
-		x.scan(info, n, &a, &c)
+		x.scan(x.infoOf(n), n, &a, &c)
 		for _, e := range a {
 			ar = append(ar, e)
 			arSel = append(arSel, sel)
